@@ -57,7 +57,14 @@ func enumSpecs(tier string) []*spec {
 		enumSpec("x509.KeyUsage", "statement", -1, 1<<10, func(i int) x509.KeyUsage { return x509.KeyUsage(i) },
 			outside(0, 1<<10, "negative: KeyUsage is a bit mask"), 0x1ff),
 		enumSpec("x509.SignatureAlgorithm", "statement", -1, 40, func(i int) x509.SignatureAlgorithm { return x509.SignatureAlgorithm(i) },
-			outside(0, int(x509.Ed25519Sig), "undefined code point: not a declared SignatureAlgorithm constant (UnknownSignatureAlgorithm … Ed25519Sig)"), int(x509.SHA256WithRSAPSS)),
+			func(i int) string {
+				if i == 0 {
+					// {"name":"0","oid":""} is refused by AuxOID.UnmarshalJSON; accepting "" there breaks the
+					// repository's stable test, so the failure is pinned behaviour, not a defect.
+					return "unrecognised algorithm: the repository's TestSignatureAlgorithmJSON requires decoding UnknownSignatureAlgorithm to fail (\"Should fail on unrecognized algorithm\")"
+				}
+				return outside(0, int(x509.Ed25519Sig), "undefined code point: not a declared SignatureAlgorithm constant (UnknownSignatureAlgorithm … Ed25519Sig)")(i)
+			}, int(x509.SHA256WithRSAPSS)),
 		enumSpec("x509.PublicKeyAlgorithm", "statement", -1, 40, func(i int) x509.PublicKeyAlgorithm { return x509.PublicKeyAlgorithm(i) },
 			outside(0, int(x509.X25519), "undefined code point: not a declared PublicKeyAlgorithm constant (String() maps it to unknown_algorithm)"), int(x509.ECDSA)),
 		enumSpec("crl.RevocationReasonCode", "design", -1, 16, func(i int) crl.RevocationReasonCode { return crl.RevocationReasonCode(i) },
